@@ -248,7 +248,10 @@ class BitStore:
     def setitem_lsb0(self, key: Union[int, slice], value: Union[int, BitStore], /) -> None:
         if isinstance(key, slice):
             new_slice = offset_slice_indices_lsb0(key, len(self))
-            self._bitarray.__setitem__(new_slice, value._bitarray)
+            if isinstance(value, BitStore):
+                self._bitarray.__setitem__(new_slice, value._bitarray)
+            else:
+                self._bitarray.__setitem__(new_slice, value)
         else:
             self._bitarray.__setitem__(-key - 1, value)
 
